@@ -282,10 +282,10 @@ Proof.
 Qed.
 (* the text written for a namespace, when the graph's strings are clean, is a well-formed document whose tree is explicit *)
 Theorem write_text_wellformed lm p w : text_clean lm p w = true ->
-  exists d vts s, write_doc p w = Ok d /\ write_text lm p w = Ok s /\ xparse s = Some (erase (doc_ltree lm d vts)).
+  exists d vts s, write_doc p w = Ok d /\ value_trees p w = Some vts /\ write_text lm p w = Ok s /\ xparse s = Some (erase (doc_ltree lm d vts)).
 Proof.
   unfold text_clean, write_text. destruct (write_doc p w) as [d|]; [|discriminate]. destruct (value_trees p w) as [vts|] eqn:Ev; [|discriminate].
   intros H. apply andb_true_iff in H as [H Hx]. apply andb_true_iff in H as [Hc Hcr]. apply negb_true_iff in Hcr, Hx. destruct (value_trees_texts p w vts Ev) as [Ht Hok].
-  exists d, vts, (doc_text lm d (value_texts p w)). split; [reflexivity|]. cbn [rbind]. rewrite Hx. split; [reflexivity|].
+  exists d, vts, (doc_text lm d (value_texts p w)). split; [reflexivity|]. split; [reflexivity|]. cbn [rbind]. rewrite Hx. split; [reflexivity|].
   rewrite Ht in *. now apply written_text_wellformed.
 Qed.
